@@ -280,13 +280,15 @@ class FieldMappingTransformationBase(DetectionItemTransformation):
             if isinstance(value, SigmaFieldReference) and (
                 self.processing_item is None or self.processing_item.match_field_in_value(value)
             ):
+                mapped_fields = self._apply_field_name(value.field)
                 new_values.extend(
                     (
                         SigmaFieldReference(mapped_field, value.starts_with, value.ends_with)
-                        for mapped_field in self._apply_field_name(value.field)
+                        for mapped_field in mapped_fields
                     )
                 )
-                fieldref_match = True
+                if mapped_fields != [value.field]:  # the reference was really mapped
+                    fieldref_match = True
             else:
                 new_values.append(value)
 
